@@ -47,7 +47,7 @@ PROPS = {
         'assumptions': COMMON_ASSUME + ['separator independence is proved for texts below the 64 KiB token limit whose segments hold no further brace and no line break (what the writer emits for FAIM values); doubled separators and texts with stray line breaks are decided on the implementation by stream l5-props'],
     },
     'C02': {
-        'props': ['theories/Props/C02.v'], 'deps': READER_DEPS + CODEC_DEPS + ['theories/Theory/WriterFacts.v', 'theories/Model/Writer.v', 'gen/Writer.v'],
+        'props': ['theories/Props/C02.v'], 'deps': READER_DEPS + CODEC_DEPS + ['theories/Theory/WriterFacts.v', 'theories/Model/Writer.v', 'gen/Writer.v', 'theories/Theory/Segments.v', 'theories/Theory/FileRoundTripFull.v'],
         'streams': ['l5-props', 'l5-reread', 'l2-tags'],
         'trusted_base': READER_TB + ['translator reading of writer.go and of the 60 Parse/Format functions, tied by streams l2-tags / l3-write / l4-reader'],
         'assumptions': COMMON_ASSUME + ['the stabilisation statement (second read equals first read) is decided on the implementation by streams l5-props (read-write-read) and l5-reread (over-width, blank-padded, inner-blank elements); the theorems cover: an accepted text yields a valid message, which the writer does not refuse'],
